@@ -19,6 +19,13 @@ type c11Job struct {
 	Seeded bool   `json:"seeded"`
 	// ViaSeed: seed the VM the documented way (Context.Seed + Init) instead of assigning RandSrc
 	ViaSeed bool `json:"viaseed"`
+	// DefExpr: Config.DefaultDiceSideExpr (compiled lazily on the first bare `d`, under this VM's own syntax flags)
+	DefExpr string `json:"defexpr"`
+	// NoDetail: do not compare the process text (programs that display dir() lists: Go map order)
+	NoDetail bool `json:"nodetail"`
+	// Mode: dice mode (-1 min, 1 max); Expect: the value this VM must return whatever else ran in the process before ("" = none)
+	Mode   int    `json:"mode"`
+	Expect string `json:"expect"`
 }
 
 type c11Res struct {
@@ -49,8 +56,10 @@ func c11VM(cfg vmCfg, j c11Job) *ds.Context {
 func c11Run(j c11Job, src string) c11Res {
 	cfg := cfgFromFlags(j.Flags)
 	cfg.Lang = j.Lang
+	cfg.DefaultSides = j.DefExpr
+	cfg.Mode = j.Mode
 	vm := c11VM(cfg, j)
-	o := runScript(vm, src, true)
+	o := runScript(vm, src, !j.NoDetail)
 	return c11Res{Ok: o.Ok, Err: o.Err, Panic: o.Panic, Str: o.Str, Detail: o.Detail, Hi2: o.Hi2, Lo2: o.Lo2}
 }
 
@@ -87,6 +96,13 @@ func init() {
 		}
 		var mu sync.Mutex
 		var diffs []diff
+		// a job that states the value it must return (a function of its own configuration only): the isolated run already
+		// shares the process with the runs before it
+		for k := range jobs {
+			if jobs[k].Expect != "" && ref[k].Str != jobs[k].Expect && len(diffs) < 10 {
+				diffs = append(diffs, diff{k, -1, ref[k], c11Res{Ok: true, Str: jobs[k].Expect}})
+			}
+		}
 		total := 0
 		var wg sync.WaitGroup
 		start := make(chan struct{})
@@ -135,6 +151,7 @@ func init() {
 			}
 			cfgA := cfgFromFlags(jobs[k].Flags)
 			cfgA.Lang = jobs[k].Lang
+			cfgA.DefaultSides = jobs[k].DefExpr
 			vmA := c11VM(cfgA, jobs[k])
 			var errA error
 			func() {
